@@ -37,7 +37,7 @@ Print Assumptions C02_checker_nonvacuous.
    both directions, labels matched up to the names the sheet does not fix (wildcards on the reference side).
 
    The fragment (Comp/RefineStep.v: row_ok, decided by Comp/Refine.v: fragb): action rows, wait_for_response,
-   split_by_value, split_by_group, start_new_flow, call_webhook, transfer_airtime, go_to, no_op (forwarding and
+   split_by_value, split_by_group, split_random, start_new_flow, call_webhook, transfer_airtime, go_to, no_op (forwarding and
    decision), hard_exit, loose_exit, begin_block/end_block (nested); conditional edges from action rows (implicit
    routers and waits), re-targeting, anonymous rows, blank `from`; NAMED categories (condition_name: two tests that
    name the same category share it, the edge written last says where it leads); the first row is a node row.
@@ -46,10 +46,11 @@ Print Assumptions C02_checker_nonvacuous.
    the reference reads it, [_, group name] (both decided below by the probed constants of Gen/Tables.v).
    G : GenNames is any set of names that holds "Other" and, for every unnamed condition of the sheet, the names
    generate_category_name may invent for it (edge_ok); an EXPLICIT name must lie outside G and differ from
-   "No Response": the statement without that premise is FALSE of the faithful model (C02_clash_*_refuted below,
+   "No Response", an explicit bucket name of a split_random (condition_name, else the value) must not be one of the
+   names "Bucket <n>" RandomRouter.add_choice invents: the statement without that premise is FALSE of the faithful model (C02_clash_*_refuted below,
    the findings category-name-clash).  `sheet_names rows` (Comp/RefineFrag.v) is the least such G of a sheet.
-   NOT in the fragment (what is missing for the full statement compile_refines_rowsem): split_random rows, node
-   names / given `_nodeId`s (merged rows), explicit names that clash.  For those the statement is decided per sheet
+   NOT in the fragment (what is missing for the full statement compile_refines_rowsem): node names / given
+   `_nodeId`s (merged rows), a first row that is not a node row, explicit names that clash.  For those the statement is decided per sheet
    by the verified checker (translation validation, C02_sim_check_sound). *)
 Theorem C02_compile_refines_rowsem_partial : forall (G : GenNames) fresh,
   (forall a b : nat, fresh a = fresh b -> a = b) -> (forall k, fresh k <> hard_exit_sentinel) ->
@@ -105,13 +106,17 @@ Proof. exact compile_refines_rowsem_std. Qed.
 Print Assumptions C02_compile_refines_rowsem_std.
 
 (* non-vacuity: directed sheets of the harness lie in the fragment, compile (compiled nodes) and have a reference
-   meaning (reference nodes): a wait_for_response row with a timeout and two tests sharing a named category, an action
+   meaning (reference nodes): a wait_for_response row with a timeout and two tests sharing a named category, value / group / random splits
+   (named, unnamed and re-targeted buckets), an action
    row with conditional edges (implicit router: 6 vs 5 nodes), a go_to cycle,
    no_op forwarding and a no_op decision, nested blocks with a hard exit, enter-flow / webhook / airtime outcomes,
    hard and loose exits *)
 Example C02_refines_named_nonvacuous : refines_ex ex_router 6 6.
 Proof. exact refines_ex_router. Qed.
 Print Assumptions C02_refines_named_nonvacuous.
+Example C02_refines_splits_nonvacuous : refines_ex ex_splits 9 9.
+Proof. exact refines_ex_splits. Qed.
+Print Assumptions C02_refines_splits_nonvacuous.
 Example C02_refines_implicit_nonvacuous : refines_ex ex_implicit 6 5.
 Proof. exact refines_ex_implicit. Qed.
 Print Assumptions C02_refines_implicit_nonvacuous.
